@@ -107,6 +107,10 @@ pub fn g1(ctx: &Ctx) {
         ctx.violation(format!("{P}/float-layout"), "single float stream is not the concatenation of 4-byte little-endian values".to_string());
         return;
     }
+    // and the real reader returns the values that were written
+    if crate::oracle::read_and_compare(ctx, &p, &wr, P, None).is_none() {
+        return;
+    }
     // packet cut phases reached
     if n > c {
         ctx.count(format!("wphase:{}:{}", w, (c * w as usize) % 8));
@@ -127,13 +131,18 @@ fn p_points(p: &Program) -> &Vec<Vec<Val>> {
 pub fn g2(ctx: &Ctx) {
     let w = ctx.pick("width", 65) as u32;
     let a = ctx.pick("anchor", 4);
+    let scaled = ctx.pick("scaled", 2) == 1;
     let Some((min, max)) = range_for(w, 0, a) else { return };
     let n = if w <= 8 { 19 } else { 9 };
     let vals = stream_values(min, max, n);
     let mut proto = xyz(F32);
-    proto.push(rec("intensity", Ty::Int { min, max }));
+    proto.push(rec("intensity", if scaled { Ty::Scaled { min, max, scale: 0.5, offset: 2.0 } } else { Ty::Int { min, max } }));
     proto.push(rec("timeStamp", Ty::F64 { min: None, max: None }));
-    let points: Vec<Vec<Val>> = vals.iter().enumerate().map(|(i, v)| vec![Val::F32(i as f32), Val::F32(-1.5), Val::F32(f32::MAX), Val::Int(*v), Val::F64(i as f64 * 0.1)]).collect();
+    let points: Vec<Vec<Val>> = vals
+        .iter()
+        .enumerate()
+        .map(|(i, v)| vec![Val::F32(i as f32), Val::F32(-1.5), Val::F32(f32::MAX), if scaled { Val::Scaled(*v) } else { Val::Int(*v) }, Val::F64(i as f64 * 0.1)])
+        .collect();
     let mut scene = crate::scenes::scene(0);
     scene.clouds.clear();
     scene.clouds.push(m::Cloud { meta: m::CloudMeta { guid: Some("c".into()), ..Default::default() }, proto, points, records: n as u64, file_offset: 0 });
